@@ -26,7 +26,10 @@ RULE = (
     'of the exact crossing model (decimal-step cases with a sample within '
     '2 ulp of a level are left out on a mismatch and counted). A curve whose '
     'main body is ambiguous on the model side (DESIGN O2) is skipped and '
-    'counted. Non-trivial: both curves assembled from >= 3 intervals each '
+    'counted. The two curves are assembled in either order and, in some '
+    'cases, set-zeta-grid is attempted once more between them (refused => '
+    'nothing changes; accepted => both curves are judged on the grid the '
+    'file then declares). Non-trivial: both curves assembled from >= 3 intervals each '
     'and spanning >= 8 levels; distinct = SHA-1 of the case.'
 )
 ASSUMPTIONS = ['classification of the planted record is as constructed '
